@@ -25,7 +25,8 @@ RULE = ("graph: neighbour lists produced by the search functions themselves (nea
         "average, weighted} x optimal_ordering x criterion in {distance, maxclust}: (linkage, clusters) == SciPy on my own "
         "condensed DP distance vector (own default-metric choice), one label per input; single linkage at integer threshold t == "
         "components of the nearest_neighbor(max_edits=t) graph. Non-trivial (graph): >= 2 components of size > 1 plus >= 1 "
-        "isolated node; (hierarchical): >= 3 distinct distances.")
+        "isolated node; (hierarchical): >= 3 distinct distances."
+        " Explicit metric weights up to 300 and sequences of 300-400 residues (distances beyond 255).")
 ASSUMPTIONS = ["igraph's community algorithms draw from Python's `random`, which is seeded per case",
                "neighbour lists come from the default and Hamming searches (integer distances)"]
 
@@ -213,6 +214,10 @@ def enum_hier_large(tier):
     for n in ([255, 257, 511, 513, 1025] if tier == "quick" else [255, 257, 511, 512, 513, 1023, 1025, 2049]):
         yield {"n": n, "pool": pool, "method": "single", "t": 1}
         yield {"n": n, "pool": pool, "method": "average", "t": 2.5}
+    # distances beyond 255 and 65535/256 (long sequences: the metric's values must reach SciPy unreduced)
+    longpool = ["A" * 300, "C" * 300, "A" * 150 + "C" * 150, "A" * 300 + "C", "D" * 400, "A" * 299, "CAS" + "G" * 257 + "F"]
+    yield {"n": 10, "pool": longpool, "method": "complete", "t": 260}
+    yield {"n": 9, "pool": longpool, "method": "average", "t": 150.5}
 
 
 @st.composite
@@ -270,7 +275,7 @@ def hier_case(draw, tier="quick"):
         case["index"] = draw(st.sampled_from(["default", "str", "rev", "dup"]))
     case["omit_criterion"] = draw(st.integers(0, 3)) == 0
     if draw(st.booleans()):
-        case["metrics"] = draw(st.lists(st.sampled_from([[1, 1, 1], [1, 1, 2], [2, 1, 1], [1, 3, 1], [3, 2, 2]]), min_size=2, max_size=3))
+        case["metrics"] = draw(st.lists(st.sampled_from([[1, 1, 1], [1, 1, 2], [2, 1, 1], [1, 3, 1], [3, 2, 2], [25, 40, 1], [60, 70, 3], [50, 40, 60], [100, 100, 100], [300, 1, 1]]), min_size=2, max_size=3))
     return case
 
 
